@@ -38,6 +38,12 @@ func init() {
 
 func quoteState(name string) tokenizers.IQuoteState {
 	switch name {
+	case "generic0": // values that no constructor made
+		return &generic.GenericQuoteState{}
+	case "expression0":
+		return &calctok.ExpressionQuoteState{}
+	case "csv0":
+		return &csv.CsvQuoteState{}
 	case "generic":
 		return generic.NewGenericQuoteState()
 	case "expression":
@@ -56,10 +62,15 @@ func execC14(seg []Ev) []Ev {
 		op, st := toStr(in["op"]), toStr(in["state"])
 		q := rune(toInt(in["q"]))
 		e := Ev{"op": op, "state": st, "q": int(q)}
-		if states[st] == nil {
-			states[st] = quoteState(st)
+		key := st
+		if l, ok := in["literal"]; ok && toBool(l) {
+			key = st + "0" // a state value that no constructor made
+			e["literal"] = true
 		}
-		qs := states[st]
+		if states[key] == nil {
+			states[key] = quoteState(key)
+		}
+		qs := states[key]
 		switch op {
 		case "codec":
 			s := string(toRunes(in["s"]))
@@ -186,6 +197,15 @@ func genC14(g *Gen) {
 				if st != "generic" {
 					g.Run(gen, []Ev{{"op": "read", "state": st, "s": cpsR(s), "q": int(q), "tail": cpsR(tails[st][1])}})
 				}
+			}
+		}
+	}
+	// states that no constructor made
+	for _, st := range []string{"generic", "expression", "csv"} {
+		for _, s := range []string{"ABC", "", "it's", "say \"hi\"", "''", "\"\"", "é'日\""} {
+			for _, q := range quotes {
+				g.Run("states that no constructor made", []Ev{{"op": "codec", "state": st, "s": cps(s), "q": int(q), "literal": true}})
+				g.Run("states that no constructor made", []Ev{{"op": "decode", "state": st, "raw": cps(s), "q": int(q), "literal": true}})
 			}
 		}
 	}
